@@ -20,6 +20,32 @@ class ConstructMissing(AnchorMissing):
     silent pass."""
 
 
+def _inline_return_temporaries(tree):
+    """Canonicalisation applied to every parsed unit: `tmp = E` immediately followed by `return tmp` (tmp not read anywhere
+    else in the function) is seen by the rules as `tmp = E; return E`.  Introducing or removing such a temporary is the most
+    common behaviour-preserving edit of a return statement; the rules examine return VALUES."""
+    import copy
+    for fn in [n for n in ast.walk(tree) if isinstance(n, (ast.FunctionDef, ast.AsyncFunctionDef))]:
+        reads = {}
+        for n in ast.walk(fn):
+            if isinstance(n, ast.Name) and isinstance(n.ctx, ast.Load):
+                reads[n.id] = reads.get(n.id, 0) + 1
+        for holder in ast.walk(fn):
+            for fld in ('body', 'orelse', 'finalbody'):
+                blk = getattr(holder, fld, None)
+                if not (isinstance(blk, list) and len(blk) >= 2):
+                    continue
+                for i in range(1, len(blk)):
+                    r, a = blk[i], blk[i - 1]
+                    if isinstance(r, ast.Return) and isinstance(r.value, ast.Name) and isinstance(a, ast.Assign) and len(a.targets) == 1 \
+                            and isinstance(a.targets[0], ast.Name) and a.targets[0].id == r.value.id:
+                        v = copy.deepcopy(a.value)
+                        for x in ast.walk(v):
+                            if hasattr(x, 'lineno'):
+                                x.lineno = getattr(r, 'lineno', x.lineno)
+                        r.value = v
+
+
 class Unit:
     def __init__(self, path, rel, modname, lang, tree, text, unknown=()):
         self.path = path
@@ -30,6 +56,7 @@ class Unit:
         self.text = text
         self.lines = text.splitlines()
         self.unknown = list(unknown)
+        _inline_return_temporaries(tree)
         for n in ast.walk(tree):
             n._unit = self
         # parents
@@ -101,8 +128,9 @@ def src(node):
 class Program:
     PY_DIRS = ('pyiga', 'scripts')
 
-    def __init__(self, repo=None, with_cython=True, extra_dirs=()):
+    def __init__(self, repo=None, with_cython=True, extra_dirs=(), alpha=True):
         self.repo = repo or REPO
+        self.renamed = {}
         self.units = {}
         self.functions = {}
         self.classes = {}
@@ -112,6 +140,10 @@ class Program:
         if with_cython:
             self._load_cython()
         self._index()
+        if alpha:
+            # purely renamed locals get the names of the confirmed reference (sa/alpha.py) before any rule looks at them
+            from . import alpha as _alpha
+            self.renamed = _alpha.normalise(self)
 
     # ------------------------------------------------------------------ loading
     def _load_python(self, dirs):
